@@ -16,6 +16,7 @@ class Plan:
         self.assumptions = []
         self.rule_extra = ''
         self.env = {}             # extra environment for the driver (oracle switches)
+        self.extra_tlc = []       # [(spec dir, module, cfg, expected violation or None)] additional small specs
         self.scenarios = []       # names in tm_scenarios.ALL: directed schedules followed by TLC and replayed
         self.ticker = False       # replay the state graph of Ticker.tla on the real timeoutTicker
         self.live_runs = []       # [(Cfg, heights, runs)] real-goroutine executions recorded and validated by TLC
@@ -217,6 +218,10 @@ def run_family(ctx, plan, replay=None):
         ctx.add_tlc('Tendermint/' + cfg.name, r, exhaustive=False)
         ctx.log('simulated %s: %d behaviours' % (cfg.name, len(ts)))
         traces += ts
+    for sd, mod, cfgf, expect in plan.extra_tlc:
+        r = engine.tlc_check(ctx, sd, mod, cfgf, name='%s/%s' % (mod, cfgf), timeout=900)
+        if (r.violation or None) != expect:
+            ctx.inconclusive.append('%s %s: expected %s, TLC reports %s %s' % (mod, cfgf, expect, r.violation, (r.error or '')[:200]))
     run_live(ctx, plan)
     if plan.ticker:
         run_ticker(ctx)
